@@ -173,6 +173,17 @@ def run(ctx):
                         break
         if len(ctx.violations) > 3:
             break
+    # the LIMIT argument is a decimal number however it is written (leading zeros, +)
+    for arg, val in (("100", 100), ("0100", 100), ("010", 10), ("08", 8), ("0002000", 2000), ("+9", 9), ("00", 0)):
+        ls = [b"x" * n for n in sorted({0, 1, 7, 8, 9, 10, 11, 63, 64, 65, 99, 100, 101, 1024, 1025, 2000, 2001} )]
+        st, out, err = tool(ctx, "remove_long_lines", [arg], text(ls))
+        ctx.count("remove_long_lines.limit-argument", 1, [arg])
+        want = text([l for l in ls if len(l) <= val])
+        if st != 0 or out != want:
+            kept = [len(l) for l in out.split(b"\n")[:-1]]
+            pvlib.report_violation(ctx, "long-arg:" + arg, {"argv": ["remove_long_lines", arg], "stdin_hex": hx(text(ls))[:4000], "status": st, "kept_lengths": kept},
+                                   summary=f"remove_long_lines {arg}: kept the lengths {kept} (status {st}); the limit {val} keeps exactly the lengths <= {val}")
+            break
     cleaning_model(ctx)
     cleaning_parallel(ctx)
 
